@@ -4,12 +4,30 @@ run with clang's JSON AST: every variable with static / thread storage duration 
 no atomics / mutexes.  Returns (facts, violations)."""
 import json, subprocess, os, tempfile, sys
 
-TU = '#include <mdspan/mdspan.hpp>\n#include <mdspan/mdarray.hpp>\n'
+TU = '#include <cassert>\n#include <mdspan/mdspan.hpp>\n#include <mdspan/mdarray.hpp>\n'
+# configurations whose preprocessed source differs: language mode (pre-C++20 branches), the library's debug macro, the emulation hook
+SCAN_CONFIGS = [('c++20', ()), ('c++17', ('-DKOKKOS_MDSPAN_VERIF', '-DKOKKOS_MDSPAN_VERIF_FORCE_NUA_EMULATION')), ('c++20', ('-D_MDSPAN_DEBUG',)), ('c++2b', ('-DNDEBUG',))]
+def scan_one(args):
+    inc, std, defs = args
+    return scan(inc, std, defs)
+def scan_all(repo_include):
+    import concurrent.futures
+    with concurrent.futures.ProcessPoolExecutor(len(SCAN_CONFIGS)) as ex:
+        res = list(ex.map(scan_one, [(repo_include, s, d) for s, d in SCAN_CONFIGS]))
+    facts = {}; viol = []; seen = set()
+    for (s, d), (f, v) in zip(SCAN_CONFIGS, res):
+        tag = s + (' ' + ' '.join(d) if d else '')
+        facts[tag] = f
+        for x in v or []:
+            key = (x.get('kind'), x.get('name'), x.get('file'), x.get('line'))
+            if key in seen: continue
+            seen.add(key); viol.append(dict(x, configuration=tag))
+    return facts, viol
 
-def scan(repo_include, std='c++20'):
+def scan(repo_include, std='c++20', defines=()):
     with tempfile.TemporaryDirectory(prefix='astscan') as d:
         src = os.path.join(d, 'tu.cpp'); open(src, 'w').write(TU)
-        p = subprocess.run(['clang++-14', '-std=' + std, '-fsyntax-only', '-w', '-I' + repo_include, '-Xclang', '-ast-dump=json', src], capture_output=True, text=True)
+        p = subprocess.run(['clang++-14', '-std=' + std, '-fsyntax-only', '-w'] + list(defines) + ['-I' + repo_include, '-Xclang', '-ast-dump=json', src], capture_output=True, text=True)
         if p.returncode != 0 and not p.stdout: return None, [dict(kind='ast-dump-failed', stderr=p.stderr[-2000:])]
         root = json.loads(p.stdout)
     facts = dict(static_vars=0, static_constexpr=0, namespace_vars=0, fields=0, mutable_fields=0, const_casts=0, thread_local=0, functions=0, records=0)
